@@ -205,8 +205,12 @@ impl SqPackIndex {
                         path: directory_crc,
                     }
                 } else {
-                    // TODO: is this ever hit?
-                    panic!("This is unexpected, why is the file sitting outside of a folder?");
+                    // a path without any folder: hash it as a file name inside the empty folder, so that
+                    // looking it up simply finds nothing instead of panicking
+                    Hash::SplitPath {
+                        name: CRC.checksum(lowercase.as_bytes()),
+                        path: CRC.checksum(b""),
+                    }
                 }
             }
             IndexType::Index2 => Hash::FullPath(CRC.checksum(lowercase.as_bytes())),
